@@ -23,12 +23,21 @@ struct Rec {
     nreq: u64,
     dead: bool,
     dropped: bool,
+    stalled: bool,
+    unwritten: std::collections::VecDeque<(u64, u64)>,
 }
 
 impl Rec {
     fn observe(&mut self, mut ev: Value, w: &mut TraceWriter) {
         let (frames, _) = self.s.peer.frames();
         let out: Vec<Value> = frames[self.seen_out..].iter().map(|f| abstract_request(f)).collect();
+        // the peer learns the IDs from what the client wrote (requests are
+        // written in the order they were submitted)
+        for a in out.iter() {
+            if let Some((r, q)) = self.unwritten.pop_front() {
+                self.outstanding.push((r, a["id"].as_u64().unwrap_or(0), q));
+            }
+        }
         self.seen_out = frames.len();
         let comp = self.s.comp.lock().unwrap();
         let mut done = vec![];
@@ -49,6 +58,8 @@ impl Rec {
         ev["out"] = json!(out);
         ev["done"] = json!(done);
         ev["closed"] = json!(closed);
+        let (_, partial) = self.s.peer.frames();
+        ev["partial"] = json!(partial != 0 && !closed);
         if self.s.hang {
             ev["hang"] = json!(true);
         }
@@ -270,6 +281,8 @@ fn main() {
                 nreq: 0,
                 dead: false,
                 dropped: false,
+                stalled: false,
+                unwritten: Default::default(),
             };
             w.event(json!({"ev": "reset"}));
             total += 1;
@@ -294,14 +307,15 @@ fn main() {
                     rc.nreq += 1;
                     let (r, q) = (rc.nreq, 1 + rng.below(nq));
                     rc.s.submit(r, q);
+                    rc.unwritten.push_back((r, q));
                     rc.s.settle().await;
-                    // the peer learns the ID from what the client wrote
-                    let (frames, _) = rc.s.peer.frames();
-                    if frames.len() > rc.seen_out {
-                        let a = abstract_request(&frames[frames.len() - 1]);
-                        rc.outstanding.push((r, a["id"].as_u64().unwrap_or(0), q));
-                    }
                     ev = json!({"ev": "submit", "r": r, "q": q});
+                } else if roll % 40 == 7 {
+                    // the peer stops / resumes taking octets
+                    rc.stalled = !rc.stalled;
+                    rc.s.peer.write_credit(if rc.stalled { Some(4 + rng.below(8) as usize) } else { None });
+                    rc.s.settle().await;
+                    ev = json!({"ev": if rc.stalled { "stall" } else { "unstall" }});
                 } else if roll < 972 {
                     // one message, or a burst, from the hostile peer
                     let n = if rng.chance(1, 12) { 2 + rng.below(11) } else { 1 };
